@@ -127,6 +127,8 @@ func (o Op) Encode() string {
 		return fmt.Sprintf("SWDU %d", o.Signer)
 	case "SPRM":
 		return fmt.Sprintf("SPRM %d %d", o.Status, o.Mode)
+	case "BFEE":
+		return fmt.Sprintf("BFEE %s", o.Amount)
 	case "SWAG":
 		s := fmt.Sprintf("SWAG %d %s %d %s %d %s %d %d %s %s %s %d %s %s %d", o.Signer, o.Tk.enc(), o.Inner, o.Tk2.enc(), o.BetUID, o.Amount,
 			o.SelMkt, o.SelOdds, o.OddsVal, o.Mult, o.Ky.enc(), o.OddsType, o.MainDed, o.SubDed, len(o.AllOdds))
@@ -223,6 +225,8 @@ func ParseOp(line string) Op {
 		}
 	case "SWDU":
 		o.Signer = r.n()
+	case "BFEE": // x/bet UpdateParams under the governance authority: the wager fee
+		o.Amount = r.big()
 	case "SPRM": // x/subaccount UpdateParams under the governance authority: wager enabled, deposit enabled
 		o.Status, o.Mode = r.n(), r.n()
 	case "SWAG":
